@@ -333,35 +333,37 @@ def families(tier):
                 for a in range(NSLOTS):
                     if q and sn != "auth" and (a + 2 * b) % 9:
                         continue
-                    if not q and sn not in ("auth", "escapes") and (a + b) % 3:
+                    if not q and sn != "auth" and (a + b) % 3:
                         continue
                     fams.append(Family("step/%s/%s/B=%d/A-slot=%d" % (sn, route, b, a), h_step, dict(skeleton=sk, route=route, b_index=b, a_slot=a)))
     qmods = ("with_query", "update_query", "extend_query", "without_query_params")
     pmods = ("with_path", "with_name", "with_suffix", "div", "joinpath", "join")
     light = [SKELS[0], ("path", ["http://h/a", NS, "/b.c?x=1#f"]), ("query", ["//h/p?", NS, "=v&k=v"])]
-    for si, (sn, sk) in enumerate(light if q else SKELS):
+    if not q:
+        light = light + [("frag", ["x://h:0/p#", NS]), SKELS[4], ("escapes", ["http://h/%c3", NS, "?%a9=v#%c3%a9"])]
+    for si, (sn, sk) in enumerate(light):
         for mi, m in enumerate(MODS):
             if q and sn == "query" and m not in qmods:
                 continue
             if q and sn == "path" and m not in pmods:
                 continue
-            for b in ((-1, (mi + si) % nb)[:2 if sn == "auth" else 1] if q else ([-1, 0, (mi + si) % nb] if sn in ("auth", "relative") else [-1, (mi + si) % nb])):
+            for b in ((-1, (mi + si) % nb)[:2 if sn == "auth" else 1] if q else ((-1, (mi + si) % nb) if sn == "auth" else (-1,))):
                 fams.append(Family("step/%s/modifier=%s/B=%d" % (sn, m, b), h_step, dict(skeleton=sk, route="ctor", b_index=b, a_slot=0, mod=m)))
     for w in ("make_netloc", "_encode_host", "split_netloc", "from_parts", "encode_url", "pre_encoded_url"):
         fams.append(Family("lru/%s" % w, h_lru, dict(which=w)))
     for name in C05.CONFIGS:
         kind, cfg = C05.CONFIGS[name]
         for n in (1, 2):
-            if q and n == 2 and kind == "_Quoter":
+            if n == 2 and kind == "_Quoter" and (q or not cfg.get("requote", True)):
                 continue
             fams.append(Family("kernel-history/%s/n=%d" % (name, n), h_kernel_history, dict(name=name, n=n), backends=("py", "c")))
         if kind == "_Unquoter" or cfg.get("requote", True):
             # an escape left pending by the first call must not leak into the second
             fams.append(Family("kernel-history/%s/escape-escape" % name, h_kernel_history,
                                dict(name=name, n=0, skeleton=["%", ("hex",), ("hex",)]), backends=("py", "c")))
-            if not q:
+            if not q and kind == "_Unquoter":
                 fams.append(Family("kernel-history/%s/escape2-escape2" % name, h_kernel_history,
-                                   dict(name=name, n=0, skeleton=[("ns",), "%", ("hex",), ("hex",)]), backends=("py", "c")))
+                                   dict(name=name, n=0, skeleton=[("ns",), "%", ("hex",), ("hex",)]), backends=("py",)))
     fams.append(Family("unpickle", h_unpickle, {}))
     fams.append(Family("value-history-concrete", h_value_history, {}))
     return fams
